@@ -398,6 +398,15 @@ def path_facts(p):
     formulas = [g if pol else negate(g) for g, pol in p.guards]
     facts = set()
 
+    def refuted(v):
+        if canon(negate(v)) in facts:
+            return True
+        if isinstance(v, ast.BoolOp) and isinstance(v.op, ast.Or):
+            return all(refuted(x) for x in v.values)
+        if isinstance(v, ast.BoolOp) and isinstance(v.op, ast.And):
+            return any(refuted(x) for x in v.values)
+        return canon(negate(v)) in facts
+
     def unit(f):
         if isinstance(f, ast.UnaryOp) and isinstance(f.op, ast.Not):
             n = negate(f.operand)
@@ -409,7 +418,10 @@ def path_facts(p):
                 out.extend(unit(v))
             return out
         if isinstance(f, ast.BoolOp) and isinstance(f.op, ast.Or):
-            rest = [v for v in f.values if canon(negate(v)) not in facts]
+            vals = []
+            for v in f.values:          # (a or (b or c)) is (a or b or c)
+                vals.extend(v.values if isinstance(v, ast.BoolOp) and isinstance(v.op, ast.Or) else [v])
+            rest = [v for v in vals if not refuted(v)]
             if len(rest) == 1:
                 return unit(rest[0])
             return [canon(f)]
